@@ -144,6 +144,16 @@ def gen_ext(ctx):
                 for k in KINDS:
                     for (x, y, dx, dy) in [(0, 0, 0, 0), rs[-1], r.choice(rs)]:
                         ops.append("xconv %s %d %d %s %d %d %d %d %s" % (head, w, h, k, x, y, dx, dy, hx))
+    # jpeg: decoding is deterministic, so the convert clause is exact there too: colourful Y'CbCr files (chroma subsampling, saturated
+    # colours) into gray / 16-bit destinations, full image and sub-rectangles, against color_convert of the native rgb8 read
+    for (w, h) in [(8, 8), (17, 9), (33, 20)] + ([(40, 35), (64, 17)] if th else []):
+        hx = hexbytes(bytes(r.below(256) for _ in range(w * h * 3))); rs = rects(w, h)
+        for k in ("gray8", "gray16", "rgb16", "rgb8", "rgba8"):
+            for (x, y, dx, dy) in [(0, 0, 0, 0), r.choice(rs), r.choice(rs)]:
+                ops.append("xconv jpeg rgb8 3 %d %d %s %d %d %d %d %s" % (w, h, k, x, y, dx, dy, hx))
+        hg = hexbytes(bytes(r.below(256) for _ in range(w * h)))
+        for k in ("gray16", "rgb16", "rgb8"):
+            ops.append("xconv jpeg gray8 1 %d %d %s 0 0 0 0 %s" % (w, h, k, hg))
     return ops
 
 def route(op):
